@@ -133,6 +133,11 @@ func (t *FnTrans) run() (err error) {
 	}
 	t.twoPhaseCheck()
 	if t.ct != nil {
+		for ord := range t.ct.LoopInv {
+			if ord > len(t.loops) {
+				t.fail("%s:%d: the contract has an invariant for loop %d, the function has %d loop(s) (fail closed)", t.ct.File, t.ct.Line, ord, len(t.loops))
+			}
+		}
 		for _, g := range t.ct.Ghost {
 			if (strings.HasPrefix(g.Arg, "before call ") || strings.HasPrefix(g.Arg, "after call ")) && !t.ghostHit[g] {
 				t.fail("%s:%d: ghost statement '%s' matches no call site (fail closed)", g.File, g.Line, g.Arg)
